@@ -1,5 +1,5 @@
 (* C18 — pinned statements. Nothing but statements, [exact] and Print Assumptions. *)
-From Coq Require Import List NArith.
+From Coq Require Import List NArith ZArith.
 From MV Require Import C18.Model C18.Spec C18.Proofs.
 Import ListNotations.
 Local Open Scope N_scope.
@@ -34,6 +34,23 @@ Theorem c18_timer_fixed_after_stop : forall ops t d,
   t_dur t = Some d -> timer_close (fold_left tstep ops t) = d.
 Proof. exact timer_stopped_is_fixed. Qed.
 Print Assumptions c18_timer_fixed_after_stop.
+
+(* Timestamps: the injected wall clock at creation (Timestamp) or at close (TimestampOnClose), as the duration since
+   the epoch (zero before it); microseconds by integer division. *)
+Theorem c18_timestamp_instant : forall w0 w1,
+  ts_value false w0 w1 = since_epoch w0 /\ ts_value true w0 w1 = since_epoch w1.
+Proof. intros; split; [apply ts_at_creation | apply ts_on_close]. Qed.
+Print Assumptions c18_timestamp_instant.
+Theorem c18_timestamp_epoch : forall w, ((w < 0)%Z -> since_epoch w = 0) /\ ((0 <= w)%Z -> Z.of_N (since_epoch w) = w).
+Proof. intros w; split; [apply since_epoch_before | apply since_epoch_after]. Qed.
+Print Assumptions c18_timestamp_epoch.
+Theorem c18_timestamp_micros : forall d, ts_micros d * 1000 <= d < (ts_micros d + 1) * 1000.
+Proof. exact micros_exact. Qed.
+Print Assumptions c18_timestamp_micros.
+(* seconds / milliseconds are the binary64 values of as_secs_f64() and as_secs_f64() * 1000 (Flocq, bit-exact) *)
+Example c18_example_timestamp :
+  (ts_micros 1500000123, ts_secs_bits 1500000000, ts_millis_bits 1500000000) = (1500000, 4609434218613702656, 4654311885213007872).
+Proof. vm_compute. reflexivity. Qed.
 
 (* non-vacuity: two owned guards live at once, an overwrite in between, a discard, then a clear *)
 Example c18_example :
